@@ -19,7 +19,7 @@ NAMES = ["HaltonSampler", "RandomUniformSampler", "RSequenceSampler", "BestBatch
          "RandomForestSampler", "XGBoostSampler", "ParticleSwarmSampler", "CORSSampler"]
 
 
-def gen_space(rng, chk):
+def gen_space(rng, chk, force_offset=False):
     from black_it.search_space import SearchSpace
 
     d = rng.choice([1, 2, 2, 3, 4, 6])
@@ -29,8 +29,15 @@ def gen_space(rng, chk):
         l = rng.uniform(-10, 10) * sc * rng.choice([1, 1, 0])
         n = rng.randint(3, 60)
         p = rng.choice([0.01, 0.1, 0.3, 0.7, 1.0, 0.05, 0.25, 0.37]) * sc
-        kind = rng.choice(["aligned", "nonaligned", "nonaligned"])
+        kind = "offset" if force_offset and not lo else rng.choice(["aligned", "nonaligned", "nonaligned", "offset"])
         h = l + n * p if kind == "aligned" else l + n * p + rng.uniform(0.05, 0.95) * p
+        if kind == "offset":
+            # bounds dominated by a large offset, precision that does not divide the range with a remainder above half a step:
+            # an end-point tolerance that grows with the offset would let the grid (and every sampler) step over the upper bound
+            l = rng.choice([10.0 ** rng.randint(3 if not force_offset else 7, 9), 2.0 ** rng.randint(10 if not force_offset else 23, 27)]) * rng.choice([1, -1])
+            p = rng.choice([0.35, 0.7, 1.0, 0.25, 0.3])
+            n = rng.randint(2, 12)
+            h = l + n * p + (rng.uniform(0.55, 0.95) if not force_offset else rng.uniform(0.8, 0.97)) * p
         chk.count("space:" + kind)
         lo.append(float(l)); hi.append(float(h)); pr.append(float(p))
     return SearchSpace([lo, hi], pr, False), [lo, hi], pr
@@ -117,7 +124,7 @@ def run(chk: Check):
     n_spaces = 12 if chk.tier == "quick" else 150
     for si in range(n_spaces + max(4, n_spaces // 3)):
         edge = si >= n_spaces      # targeted stream: grids that end one rounding error away from the declared bound
-        sp, bounds, prec = gen_edge_space(rng, chk) if edge else gen_space(rng, chk)
+        sp, bounds, prec = gen_edge_space(rng, chk) if edge else gen_space(rng, chk, force_offset=si % 4 == 1)
         gsets = [{f2h(v) for v in g.tolist()} for g in sp.param_grid]
         for name in NAMES:
             if name in ("GaussianProcessSampler", "CORSSampler") and sp.dims > 4 and chk.tier == "quick":
@@ -161,7 +168,8 @@ def run(chk: Check):
                         chk.fail(f"{name}: coordinate {bad[0]} = {row[bad[0]]!r} is not an element of its parameter grid "
                                  f"(nearest {float(sp.param_grid[bad[0]][np.argmin(np.abs(sp.param_grid[bad[0]] - row[bad[0]]))])!r})", case)
                         break
-                    if any(not (bounds[0][j] <= row[j] <= bounds[1][j] + 1e-7 + 1e-13 + abs(bounds[1][j]) * 1e-12) for j in range(sp.dims)):  # ulp slack: arange's own rounding
+                    if any(not (bounds[0][j] <= row[j] <= bounds[1][j] + max(1e-7, 2 * float(np.spacing(max(abs(bounds[0][j]), abs(bounds[1][j]))))) + 1e-13 + abs(bounds[1][j]) * 1e-12)
+                           for j in range(sp.dims)):  # the code's end-point tolerance (1e-7, or two float gaps for huge bounds) + ulp slack for arange's own rounding
                         chk.fail(f"{name}: proposal {row.tolist()} outside the declared bounds", case)
                 # mechanism conformance
                 if name == "RandomUniformSampler":
